@@ -53,7 +53,7 @@ static void parse_opts(int argc, char **argv)
     const char *w = dh_arg(argc, argv, "--win", "1,1;2,1;4,2;0,0"); O.nwin = 0;
     while (*w && O.nwin < 8) { O.win[O.nwin][0] = (int)strtol(w, (char **)&w, 10); if (*w == ',') w++; O.win[O.nwin][1] = (int)strtol(w, (char **)&w, 10); O.nwin++; if (*w == ';') w++; }
 }
-static int is_known(const char *id) { char h[400], n[100]; snprintf(h, sizeof(h), ",%s,", O.known); snprintf(n, sizeof(n), ",%s,", id); return strstr(h, n) != NULL; }
+static int is_known(const char *id) { char h[8192], n[100]; snprintf(h, sizeof(h), ",%s,", O.known); snprintf(n, sizeof(n), ",%s,", id); return strstr(h, n) != NULL; }
 static int leg_is(const char *l) { return !strcmp(O.leg, l); }
 static int alpha_build(dd_task_t *alpha, int cap)
 {
@@ -255,10 +255,15 @@ static int run_case(const dd_prog_t *p, const dd_cfg_t *cfg)
     carg_t ca = { p, cfg }; char err[600]; int sig = 0;
     int r = dh_isolated(child_case, &ca, dh_hang_s, err, sizeof(err), &sig);
     if (r == 0) return 0;
+    if (r == 3) {            /* a hang is believed only after a re-run of the case alone with a 4x limit; whatever that run shows is classified */
+        SH->failed = 0;
+        r = dh_isolated(child_case, &ca, 4 * dh_hang_s, err, sizeof(err), &sig);
+        if (r == 0) return 0;
+    }
     if (!SH->failed) {       /* crash or hang: the child could not record anything */
         ST->executions++;
         snprintf(SH->kv, sizeof(SH->kv), "%s", (const char *)dh_slot->kv);
-        if (r == 3) snprintf(SH->msg, sizeof(SH->msg), "no progress for %.0f s: the taskpool never terminated (hang / lost task / livelock)", dh_hang_s);
+        if (r == 3) snprintf(SH->msg, sizeof(SH->msg), "no progress for %.0f s (re-run alone with a 4x limit): the taskpool never terminated (hang / lost task / livelock)", 0.6 * 4 * dh_hang_s);
         else snprintf(SH->msg, sizeof(SH->msg), "the runtime crashed (signal %d) while executing this case: %s", sig, err);
         SH->failed = 1;
     }
@@ -276,16 +281,10 @@ static int run_case(const dd_prog_t *p, const dd_cfg_t *cfg)
             emit_failure(); return 1;
         }
     }
-    /* finding DUP-LOST: hang (no wrong value), program matches the predicate, confirmed by a re-run alone with a 4x limit */
+    /* finding DUP-LOST: hang (no wrong value; already confirmed with the 4x limit above), program matches the predicate */
     if (dd_prog_has_dup(p) && dd_norecycle && r == 3 && pred_dup_lost(p)) {
-        shared_t keep = *SH; char err2[600]; int sig2 = 0; SH->failed = 0;
-        int r2 = dh_isolated(child_case, &ca, 4 * dh_hang_s, err2, sizeof(err2), &sig2);
-        dh_stats_t now = SH->st; *SH = keep; SH->st = now;
-        if (r2 == 3) {
-            if (is_known(ID_DUPLOST)) { if (ST->extra[8]++ == 0) dh_stats_sample(ST, "KNOWN %s: %s", ID_DUPLOST, SH->kv); return 0; }
-            emit_failure(); return 1;
-        }
-        if (r2 == 0) { ST->exhaustive = ST->exhaustive; return 0; }     /* slow, not a hang */
+        if (is_known(ID_DUPLOST)) { if (ST->extra[8]++ == 0) dh_stats_sample(ST, "KNOWN %s: %s", ID_DUPLOST, SH->kv); return 0; }
+        emit_failure(); return 1;
     }
     /* finding ABA: differential re-run of the identical case (same choice list) with task-object recycling disabled */
     if (!dd_norecycle && (leg_is("gate") || leg_is("hold") || O.threads == 1)) {
